@@ -389,7 +389,7 @@ Proof.
 Qed.
 
 Lemma apply_aop_extends o h a h' a' :
-  apply_aop true o h a = (h', a') -> (a_loc a < length h)%nat ->
+  apply_aop true true o h a = (h', a') -> (a_loc a < length h)%nat ->
   extends h h' /\ (a_loc a' < length h')%nat.
 Proof.
   destruct o; cbn [apply_aop]; intros H Hl.
@@ -397,6 +397,8 @@ Proof.
   - inversion H; subst. split; [apply extends_refl|exact Hl].
   - inversion H; subst. split; [apply extends_refl|exact Hl].
   - unfold alloc in H. rewrite hset_last in H. inversion H; subst. cbn [a_loc].
+    split; [eexists; reflexivity|]. rewrite app_length. cbn. lia.
+  - unfold alloc in H. inversion H; subst. cbn [a_loc].
     split; [eexists; reflexivity|]. rewrite app_length. cbn. lia.
 Qed.
 
@@ -423,7 +425,7 @@ Definition target (s : stmt) : name :=
 
 Lemma exec_step st s :
   env_ok st ->
-  let st' := exec true st s in
+  let st' := exec true true st s in
   env_ok st' /\ extends (hp st) (hp st') /\
   forall k, k <> target s -> elookup k (env st') = elookup k (env st).
 Proof.
@@ -436,7 +438,7 @@ Proof.
     + cbn [hp]. eexists; reflexivity.
     + intros k Hk. cbn [env]. apply elookup_eset_other. exact Hk.
   - destruct (elookup src (env st)) as [a|] eqn:E.
-    + destruct (apply_aop true o (hp st) a) as [h1 a1] eqn:EA.
+    + destruct (apply_aop true true o (hp st) a) as [h1 a1] eqn:EA.
       destruct (apply_aop_extends _ _ _ _ _ EA (OK _ _ E)) as [Hx Hl]. cbn zeta.
       split; [|split].
       * intros k a0 H. cbn [env hp] in *.
@@ -460,7 +462,7 @@ Qed.
 
 Lemma exec_all_inv p : forall st,
   env_ok st ->
-  let st' := exec_all true st p in
+  let st' := exec_all true true st p in
   env_ok st' /\ extends (hp st) (hp st') /\
   forall k, ~ In k (map target p) -> elookup k (env st') = elookup k (env st).
 Proof.
@@ -476,7 +478,7 @@ Qed.
 (* T4.views: whatever statements run — views taken, views amended, amended views amended again —
    a variable that is not itself assigned keeps its value *)
 Lemma views_unobservable p st k :
-  env_ok st -> ~ In k (map target p) -> value_of (exec_all true st p) k = value_of st k.
+  env_ok st -> ~ In k (map target p) -> value_of (exec_all true true st p) k = value_of st k.
 Proof.
   intros OK Hk. destruct (exec_all_inv p st OK) as (_ & X & E). cbn zeta in *.
   unfold value_of. rewrite (E k Hk). destruct (elookup k (env st)) as [a|] eqn:EL; [|reflexivity].
@@ -485,7 +487,7 @@ Qed.
 
 (* and every buffer that existed keeps its content: nothing is ever written in place *)
 Lemma buffers_immutable p st l :
-  env_ok st -> (l < length (hp st))%nat -> hget (hp (exec_all true st p)) l = hget (hp st) l.
+  env_ok st -> (l < length (hp st))%nat -> hget (hp (exec_all true true st p)) l = hget (hp st) l.
 Proof.
   intros OK Hl. destruct (exec_all_inv p st OK) as (_ & X & _). apply extends_hget; assumption.
 Qed.
@@ -569,7 +571,7 @@ Qed.
 
 (* the value a view operation / a cloning amend produces is the pure operation on the operand's value *)
 Lemma apply_aop_value o h a h' a' :
-  apply_aop true o h a = (h', a') -> (a_loc a < length h)%nat ->
+  apply_aop true true o h a = (h', a') -> (a_loc a < length h)%nat ->
   deref h' a' = pure_aop o (deref h a).
 Proof.
   destruct o; cbn [apply_aop pure_aop]; intros H Hl.
@@ -587,16 +589,19 @@ Proof.
     rewrite Nat.sub_diag. cbn [nth].
     rewrite <- (rv_length (hget h (a_loc a)) (a_len a) (a_off a) (a_step a)).
     fold (deref h a). rewrite <- (list_set_length (deref h a) i v). apply rv_id.
+  - unfold alloc in H. inversion H; subst.
+    unfold deref at 1; cbn [a_loc a_off a_step a_len]. unfold hget. rewrite app_nth2 by lia.
+    rewrite Nat.sub_diag. cbn [nth]. apply rv_id.
 Qed.
 
 Definition sim (st : hstate) (ps : pstore) : Prop :=
   env_ok st /\ forall k, value_of st k = pget k ps.
 
-Lemma sim_step st ps s : sim st ps -> sim (exec true st s) (pure_exec ps s).
+Lemma sim_step st ps s : sim st ps -> sim (exec true true st s) (pure_exec ps s).
 Proof.
   intros [OK V]. destruct (exec_step st s OK) as (OK' & X & E). cbn zeta in *.
   split; [exact OK'|].
-  assert (Hother : forall k, k <> target s -> value_of (exec true st s) k = value_of st k).
+  assert (Hother : forall k, k <> target s -> value_of (exec true true st s) k = value_of st k).
   { intros k Hk. unfold value_of. rewrite (E k Hk). destruct (elookup k (env st)) as [a|] eqn:EL; [|reflexivity].
     unfold deref. rewrite (extends_hget _ _ _ X (OK _ _ EL)). reflexivity. }
   destruct s as [d l|d o src|d src]; cbn [exec pure_exec target] in *.
@@ -607,7 +612,7 @@ Proof.
     + rewrite pget_pset_other by exact Hne. rewrite <- V. apply Hother. exact Hne.
   - pose proof (V src) as Vs. unfold value_of in Vs.
     destruct (elookup src (env st)) as [a|] eqn:EL.
-    + rewrite <- Vs. destruct (apply_aop true o (hp st) a) as [h1 a1] eqn:EA. intros k.
+    + rewrite <- Vs. destruct (apply_aop true true o (hp st) a) as [h1 a1] eqn:EA. intros k.
       destruct (Z.eq_dec k d) as [->|Hne].
       * rewrite pget_pset_same. unfold value_of. cbn [env hp]. rewrite elookup_eset_same. f_equal.
         eapply apply_aop_value; eauto.
@@ -622,7 +627,7 @@ Proof.
     + rewrite <- Vs. exact V.
 Qed.
 
-Lemma sim_all p : forall st ps, sim st ps -> sim (exec_all true st p) (pure_exec_all ps p).
+Lemma sim_all p : forall st ps, sim st ps -> sim (exec_all true true st p) (pure_exec_all ps p).
 Proof.
   unfold exec_all, pure_exec_all. induction p as [|s p IH]; intros st ps H; cbn [fold_left]; [exact H|].
   apply IH. apply sim_step. exact H.
@@ -634,5 +639,5 @@ Proof. split; [intros k a H; discriminate|reflexivity]. Qed.
 (* values behave as immutable: after ANY statement sequence every variable holds the value the
    same program computes over a store of immutable lists *)
 Lemma heap_is_immutable_store p k :
-  value_of (exec_all true (mk_hstate [] []) p) k = pget k (pure_exec_all [] p).
+  value_of (exec_all true true (mk_hstate [] []) p) k = pget k (pure_exec_all [] p).
 Proof. exact (proj2 (sim_all p _ _ sim_empty) k). Qed.
